@@ -33,7 +33,15 @@ class E(enum.Enum):
     B = 2
 
 
+class IE(enum.IntEnum):
+    X = 1
+    Y = 2
+
+
 N = NewType('N', int)
+NL = NewType('NL', typing.List[int])
+TL = TypeVar('TL', bound=typing.List[int])
+TU = TypeVar('TU', bound=typing.Union[int, str])
 T = TypeVar('T')
 TB = TypeVar('TB', bound=int)
 TC = TypeVar('TC', int, str)
@@ -247,10 +255,19 @@ class UIter:
         return f'UIter({self._d!r})'
 
 
+class Obj:
+    """Plain attribute bag: Obj(x=1, y=Obj(...))."""
+    def __init__(self, **kw):
+        self.__dict__.update(kw)
+
+    def __repr__(self):
+        return 'Obj(' + ', '.join(f'{k}={v!r}' for k, v in self.__dict__.items()) + ')'
+
+
 # Names visible to eval() of rendered hint / object sources (replay scripts).
 NAMESPACE = {
-    'K': K, 'K2': K2, 'Other': Other, 'E': E, 'N': N, 'T': T, 'TB': TB, 'TC': TC, 'P': P, 'PImpl': PImpl,
+    'K': K, 'K2': K2, 'Other': Other, 'E': E, 'IE': IE, 'NL': NL, 'TL': TL, 'TU': TU, 'N': N, 'T': T, 'TB': TB, 'TC': TC, 'P': P, 'PImpl': PImpl,
     'G': G, 'GL': GL, 'USeq': USeq, 'UMSeq': UMSeq, 'UMap': UMap, 'UMMap': UMMap, 'USet': USet,
     'UMSet': UMSet, 'UColl': UColl, 'URev': URev, 'UCont': UCont, 'UIter': UIter,
-    'typing': typing, 'collections': collections, 'cabc': cabc,
+    'Obj': Obj, 'typing': typing, 'collections': collections, 'cabc': cabc,
 }
